@@ -10,11 +10,12 @@
 (* so the model describes all behaviours any iteration order can produce.                        *)
 (* TLC checks the model against the contract DDContract (C06, C07, C08), the per-layer width     *)
 (* bound (C13) and the callback protocol it would emit (C12) -- on the specification itself.     *)
-EXTENDS DDContract, Json, IOUtils
+EXTENDS DDContract, ThresholdCache, Json, IOUtils
 Insts == JsonDeserialize(IOEnv.INSTS)     \* array of instances (static variable order, every state impacted by every variable)
 CONSTANTS Widths, Cuts
-VARIABLES ii, HT, inp, cut, nodes, edges, layers, nextL, lel, pc, res, maxExpanded
-vars == <<ii, HT, inp, cut, nodes, edges, layers, nextL, lel, pc, res, maxExpanded>>
+VARIABLES ii, HT, inp, cut, nodes, edges, layers, nextL, lel, pc, res, maxExpanded,
+          cacheT      \* the threshold table the compilation reads (ThresholdCache format); empty when compiled in isolation
+vars == <<ii, HT, inp, cut, nodes, edges, layers, nextL, lel, pc, res, maxExpanded, cacheT>>
 I == Insts[ii]
 N == I.n
 StOf(d, q) == [d |-> IF I.with_depth THEN d ELSE -1, x |-> IF I.family = "knapsack" THEN <<q>> ELSE SetToSortSeq(q, LAMBDA a, b : a < b)]
@@ -32,17 +33,18 @@ Reach(d) == IF d = 0 THEN {<<0, RootQ(I), I.v0, {}>>}
 \* node key = <<layer, kind, q>> ; kind "n" ordinary, "m" merged
 Val(k) == nodes[k].val
 Exact(k) == nodes[k].ex /\ ~nodes[k].rl
-Better(a, b) == Val(a) > Val(b) \/ (Val(a) = Val(b) /\ RankKey(nodes[a].q) > RankKey(nodes[b].q))      \* a strictly preferred to b
-BestSubsets(S, k) == {K \in SUBSET S : Cardinality(K) = k /\ \A a \in K, b \in S \ K : ~Better(b, a)}
+NBetter(a, b) == Val(a) > Val(b) \/ (Val(a) = Val(b) /\ RankKey(nodes[a].q) > RankKey(nodes[b].q))      \* a strictly preferred to b
+BestSubsets(S, k) == {K \in SUBSET S : Cardinality(K) = k /\ \A a \in K, b \in S \ K : ~NBetter(b, a)}
 KeyN(l, q) == <<l, "n", q>>
 KeyM(l, q) == <<l, "m", q>>
 NoEdge == [from |-> <<>>, to |-> <<>>, dec |-> <<-1, -1>>, cost |-> 0]
-NewNode(q, v, ex, d) == [q |-> q, val |-> v, ex |-> ex, rl |-> FALSE, del |-> FALSE, rub |-> PosInf, dep |-> d, best |-> NoEdge]
+NoTheta == 999999                                   \* node.theta = None
+NewNode(q, v, ex, d) == [q |-> q, val |-> v, ex |-> ex, rl |-> FALSE, del |-> FALSE, rub |-> PosInf, dep |-> d, best |-> NoEdge, byC |-> FALSE, th |-> NoTheta]
 Depth == inp.root.depth + Len(layers)
 RootPath == {<<inp.root.path[i][1], inp.root.path[i][2]>> : i \in DOMAIN inp.root.path}
 
 Init == /\ ii \in 1..Len(Insts)
-        /\ HT = <<>> /\ inp = <<>> /\ cut \in Cuts /\ nodes = <<>> /\ edges = {} /\ layers = <<>> /\ nextL = {} /\ lel = 0 /\ pc = "pick" /\ res = <<>> /\ maxExpanded = <<>>
+        /\ HT = <<>> /\ inp = <<>> /\ cut \in Cuts /\ nodes = <<>> /\ edges = {} /\ layers = <<>> /\ nextL = {} /\ lel = 0 /\ pc = "pick" /\ res = <<>> /\ maxExpanded = <<>> /\ cacheT = CEmpty
 \* choose the compilation input: type, width, sub-problem root, incumbent relative to the root's optimum
 Pick == /\ pc = "pick"
         /\ LET ht == HTable(I) IN
@@ -54,7 +56,7 @@ Pick == /\ pc = "pick"
                           root |-> [st |-> StOf(d0, sp[2]), depth |-> d0, value |-> sp[3], ub |-> PosInf, path |-> SetToSeq(sp[4])], q0 |-> sp[2]]
                /\ nodes' = (KeyN(1, sp[2]) :> NewNode(sp[2], sp[3], TRUE, d0))
                /\ nextL' = {KeyN(1, sp[2])}
-        /\ pc' = "loop" /\ UNCHANGED <<ii, cut, edges, layers, lel, res, maxExpanded>>
+        /\ pc' = "loop" /\ UNCHANGED <<ii, cut, edges, layers, lel, res, maxExpanded, cacheT>>
 
 \* expansion of a set of keys at depth d into layer index L+1 : returns [nodes, edges, next, count]
 Expand(nds, exp, d, L) ==
@@ -67,25 +69,32 @@ Expand(nds, exp, d, L) ==
    IN [nodes |-> [k \in (DOMAIN nds) \cup tgt |-> IF k \in tgt THEN mk(k) ELSE IF k \in exp THEN [nds[k] EXCEPT !.rub = RubOf(I, HT, d, nds[k].q)] ELSE nds[k]],
        edges |-> okE, next |-> tgt, count |-> Cardinality(live)]
 \* the best arc of a node with several equally good inbound arcs depends on the order of creation: any of them
+\* _filter_with_cache (never on the root layer): a node whose value does not exceed the recorded threshold is pruned; it keeps the
+\* threshold for the bottom-up propagation and is flagged pruned-by-cache
+CachedTh(d, q) == CGet(cacheT, d, StOf(d, q))
 Layer == /\ pc = "loop" /\ Depth < N
-         /\ LET curr == nextL  L == Len(layers) + 1  d == Depth IN
-            IF curr = {} THEN /\ layers' = Append(layers, {}) /\ pc' = "fin" /\ UNCHANGED <<nodes, edges, nextL, lel, maxExpanded>>
+         /\ LET all == nextL  L == Len(layers) + 1  d == Depth
+                pruned == IF Len(layers) = 0 THEN {} ELSE {k \in all : CachedTh(d, nodes[k].q) # NoTh /\ nodes[k].val <= CachedTh(d, nodes[k].q)[1]}
+                curr == all \ pruned
+                nodes0 == [k \in DOMAIN nodes |-> IF k \in pruned THEN [nodes[k] EXCEPT !.byC = TRUE, !.th = CachedTh(d, nodes[k].q)[1]] ELSE nodes[k]] IN
+            IF all = {} THEN /\ layers' = Append(layers, {}) /\ pc' = "fin" /\ UNCHANGED <<nodes, edges, nextL, lel, maxExpanded>>
+            ELSE IF curr = {} THEN /\ layers' = Append(layers, all) /\ nodes' = nodes0 /\ nextL' = {} /\ pc' = "loop" /\ maxExpanded' = Append(maxExpanded, 0) /\ UNCHANGED <<edges, lel>>
             ELSE
               \/ \* no squash
                  /\ \/ inp.type = "exact"
                     \/ Cardinality(curr) <= inp.width
                     \/ inp.type = "relaxed" /\ Len(layers) <= 1
-                 /\ LET x == Expand(nodes, curr, d, L) IN
+                 /\ LET x == Expand(nodes0, curr, d, L) IN
                     /\ nodes' = x.nodes /\ edges' = edges \cup x.edges /\ nextL' = x.next /\ maxExpanded' = Append(maxExpanded, x.count)
-                 /\ layers' = Append(layers, curr) /\ UNCHANGED lel /\ pc' = "loop"
+                 /\ layers' = Append(layers, all) /\ UNCHANGED lel /\ pc' = "loop"
               \/ \* restrict: keep a best `width` subset, the others are deleted
                  /\ inp.type = "restricted" /\ Cardinality(curr) > inp.width
                  /\ \E keep \in BestSubsets(curr, inp.width) :
-                      LET nd1 == [k \in DOMAIN nodes |-> IF k \in curr \ keep THEN [nodes[k] EXCEPT !.del = TRUE] ELSE nodes[k]]
+                      LET nd1 == [k \in DOMAIN nodes0 |-> IF k \in curr \ keep THEN [nodes0[k] EXCEPT !.del = TRUE] ELSE nodes0[k]]
                           x == Expand(nd1, keep, d, L) IN
                       /\ nodes' = x.nodes /\ edges' = edges \cup x.edges /\ nextL' = x.next /\ maxExpanded' = Append(maxExpanded, x.count)
                  /\ lel' = IF lel = 0 THEN Len(layers) ELSE lel
-                 /\ layers' = Append(layers, curr) /\ pc' = "loop"
+                 /\ layers' = Append(layers, all) /\ pc' = "loop"
               \/ \* relax: keep a best `width - 1` subset, merge the rest
                  /\ inp.type = "relaxed" /\ Cardinality(curr) > inp.width /\ Len(layers) > 1
                  /\ \E keep \in BestSubsets(curr, inp.width - 1) :
@@ -96,23 +105,23 @@ Layer == /\ pc = "loop" /\ Depth < N
                           redir == {[from |-> e.from, to |-> mk, dec |-> e.dec, cost |-> e.cost] : e \in {f \in edges : f.to \in drop}}
                           allIn == (IF rec # {} THEN {e \in edges : e.to = mk} ELSE {}) \cup redir
                           mv == Max({nodes[e.from].val + e.cost : e \in allIn})
-                          mnode == [q |-> ms, val |-> mv, ex |-> FALSE, rl |-> TRUE, del |-> FALSE, rub |-> PosInf, dep |-> d,
+                          mnode == [q |-> ms, val |-> mv, ex |-> FALSE, rl |-> TRUE, del |-> FALSE, rub |-> PosInf, dep |-> d, byC |-> FALSE, th |-> NoTheta,
                                     best |-> CHOOSE e \in allIn : nodes[e.from].val + e.cost = mv]
                           \* recycled path: the best dropped node is saved (un-deleted) and stays in the layer
-                          saved == IF rec # {} THEN {CHOOSE k \in drop : \A j \in drop : ~Better(j, k)} ELSE {}
-                          nd1 == [k \in (DOMAIN nodes) \cup {mk} |->
+                          saved == IF rec # {} THEN {CHOOSE k \in drop : \A j \in drop : ~NBetter(j, k)} ELSE {}
+                          nd1 == [k \in (DOMAIN nodes0) \cup {mk} |->
                                     IF k = mk THEN mnode
-                                    ELSE IF k \in drop \ saved THEN [nodes[k] EXCEPT !.del = TRUE] ELSE nodes[k]]
+                                    ELSE IF k \in drop \ saved THEN [nodes0[k] EXCEPT !.del = TRUE] ELSE nodes0[k]]
                           expset == IF rec # {} THEN keep \cup saved ELSE keep \cup {mk}
                           x == Expand(nd1, expset, d, L) IN
                       /\ nodes' = x.nodes /\ edges' = edges \cup redir \cup x.edges /\ nextL' = x.next /\ maxExpanded' = Append(maxExpanded, x.count)
-                      /\ layers' = Append(layers, curr \cup {mk})
+                      /\ layers' = Append(layers, all \cup {mk})
                  /\ lel' = IF lel = 0 THEN Len(layers) ELSE lel
                  /\ pc' = "loop"
-         /\ UNCHANGED <<ii, HT, inp, cut, res>>
+         /\ UNCHANGED <<ii, HT, inp, cut, res, cacheT>>
 EndLoop == /\ pc = "loop" /\ Depth = N /\ pc' = "fin"
            /\ layers' = IF nextL # {} THEN Append(layers, nextL) ELSE layers
-           /\ UNCHANGED <<ii, HT, inp, cut, nodes, edges, nextL, lel, res, maxExpanded>>
+           /\ UNCHANGED <<ii, HT, inp, cut, nodes, edges, nextL, lel, res, maxExpanded, cacheT>>
 
 \* ------------------------------------------------------------------ finalisation
 RECURSIVE ExactBestPath(_)
@@ -144,9 +153,29 @@ Finalize == /\ pc = "fin"
                           {[st |-> StOf(nodes[k].dep, nodes[k].q), depth |-> nodes[k].dep, value |-> Val(k), path |-> SetToSeq(RootPath \cup PathOf(k)),
                             ub |-> Min2(Min2(Plus(Val(k), nodes[k].rub), Plus(Val(k), VBot(k, term))), bv)]
                               : k \in {c \in cutset : doLocb /\ VBot(c, term) > NegInf}}
+                   \* ---- _compute_thresholds: bottom-up thresholds and the cache updates they produce
+                   doTh == inp.type = "relaxed" \/ isEx
+                   bev0 == IF bestE = <<>> THEN NegInf ELSE Val(bestE)
+                   bestKnown == Max2(inp.best_lb, bev0)
+                   aboveK == IF cut = "lel" THEN UNION {layers[j] : j \in 1..(IF lelI <= Len(layers) THEN lelI ELSE Len(layers))}
+                             ELSE {k \in DOMAIN nodes : Exact(k)}
+                   vb(k) == IF doLocb THEN VBot(k, term) ELSE NegInf
+                   SubT(a, b2) == IF a >= PosInf \div 2 THEN (IF a = NoTheta THEN NoTheta ELSE PosInf) ELSE IF b2 >= PosInf \div 2 THEN NegInf ELSE IF b2 <= NegInf \div 2 THEN PosInf ELSE a - b2
+                   ThInit(k) == IF k \in term /\ bestE # <<>> /\ ((cut = "lel" /\ isEx) \/ (cut = "fc" /\ Exact(k))) THEN bestKnown ELSE nodes[k].th
+                   Theta[k \in DOMAIN nodes] ==
+                       IF nodes[k].del THEN NoTheta
+                       ELSE LET kids == {e \in edges : e.from = k /\ Theta[e.to] # NoTheta}
+                                fk == Min({ThInit(k)} \cup {SubT(Theta[e.to], e.cost) : e \in kids})
+                            IN IF nodes[k].byC THEN fk
+                               ELSE IF Plus(Val(k), nodes[k].rub) <= bestKnown THEN SubT(bestKnown, nodes[k].rub)
+                               ELSE IF k \in cutset THEN (IF Plus(Val(k), vb(k)) <= bestKnown THEN Min2(IF fk = NoTheta THEN PosInf ELSE fk, SubT(bestKnown, vb(k))) ELSE Val(k))
+                               ELSE IF Exact(k) /\ fk = NoTheta THEN PosInf
+                               ELSE fk
+                   cu == IF ~doTh THEN {} ELSE {[d |-> nodes[k].dep, st |-> StOf(nodes[k].dep, nodes[k].q), v |-> Theta[k], e |-> k \notin cutset] :
+                                                  k \in {j \in aboveK : ~nodes[j].del /\ ~nodes[j].byC /\ Theta[j] # NoTheta}}
                IN res' = [ok |-> TRUE, exact |-> isEx \/ hebp, bv |-> bv, bev |-> IF bestE = <<>> THEN NegInf ELSE Val(bestE),
-                          besol |-> Sol(bestE), bsol |-> Sol(bestN), cs |-> out]
-            /\ pc' = "done" /\ UNCHANGED <<ii, HT, inp, cut, nodes, edges, layers, nextL, lel, maxExpanded>>
+                          besol |-> Sol(bestE), bsol |-> Sol(bestN), cs |-> out, cu |-> cu]
+            /\ pc' = "done" /\ UNCHANGED <<ii, HT, inp, cut, nodes, edges, layers, nextL, lel, maxExpanded, cacheT>>
 Next == Pick \/ Layer \/ EndLoop \/ Finalize \/ (pc = "done" /\ UNCHANGED vars)
 Spec == Init /\ [][Next]_vars
 
